@@ -119,6 +119,23 @@ class Ctx:
             raise Machinery("TLC failed rc=%d on %s/%s\n%s\n%s" % (r.returncode, module, cfg, tail, r.stderr[-2000:]))
         return outp, st
 
+    def apalache(self, module, inv, init="Init", nxt="Next", length=0, timeout=600):
+        """Symbolic check of an invariant with Apalache (all values, not TLC's bounded sets)."""
+        d = os.path.join(self.scratch, "apalache_%s" % module)
+        os.makedirs(d, exist_ok=True)
+        shutil.copy(os.path.join(SPEC, module + ".tla"), d)
+        t = time.time()
+        try:
+            r = subprocess.run(["apalache-mc", "check", "--init=" + init, "--next=" + nxt, "--inv=" + inv, "--length=%d" % length,
+                                "--out-dir=" + os.path.join(d, "out"), module + ".tla"], cwd=d, capture_output=True, text=True, timeout=timeout)
+        except subprocess.TimeoutExpired:
+            raise Machinery("apalache timeout on " + module)
+        ok = "EXITCODE: OK" in r.stdout and "no error" in r.stdout
+        self.tlc_stats.append({"name": "apalache:%s:%s" % (module, inv), "generated": 0, "distinct": 0, "seconds": round(time.time() - t, 2), "rc": r.returncode})
+        if not ok:
+            raise Machinery("apalache did not confirm %s!%s:\n%s" % (module, inv, r.stdout[-1500:]))
+        return True
+
     @staticmethod
     def printed(outp, tag):
         """Values printed by PrintT(<<tag, ToJson(x)>>) in TLC output -> list of python objects."""
